@@ -62,7 +62,7 @@ def run(ctx):
   ctx.rule = ("cases = the model's space replayed on the real function: every array of length 1..3 (quick) over 0..3, "
               "weights {1,2}, clip bounds [1,2] on/off, default value 0 on/off, num_keypoints 2..3(4), both modes and "
               "reductions; plus random dyadic arrays (heavy duplicates, skew, constant after clipping) up to length 40 "
-              "with num_keypoints up to 10; non-trivial = at least two distinct clipped values")
+              "with num_keypoints up to 10, and for every k in 2..25 exactly k, k+1, k+2 distinct values; non-trivial = at least two distinct clipped values")
   ctx.model("MC_Keypoints", "Kp_q.cfg" if ctx.quick else "Kp_t.cfg", timeout=7200)
   ctx.exhaustive = True
   events = []
